@@ -49,7 +49,10 @@ impl Fact {
                     .collect::<Vec<_>>();
 
                 if invalid_parameters.is_empty() {
-                    Ok(())
+                    self.predicate
+                        .terms
+                        .iter()
+                        .try_for_each(|term| term.check_map_key_parameters(parameters))
                 } else {
                     Err(error::Token::Language(
                         biscuit_parser::error::LanguageError::Parameters {
